@@ -8,3 +8,6 @@ def run_proofs(ctx):
     from vf.proofs.c17_vars import run_proofs as vars_proofs
 
     vars_proofs(ctx)
+    from vf.proofs.c17_layers import run_proofs as layer_proofs
+
+    layer_proofs(ctx)
